@@ -110,6 +110,7 @@ static void fixture(const char *p0, const char *p1, const char *enc1)
   if (!strcmp(enc1, "text")) {
     for (i = 0; i < 20; i++) n += sprintf(txt + n, "%d\n", i + 1);
     wfile("sub/sraw.txt", txt, n);
+    wfile("sub/snofile.txt", txt, n);
   } else {
     for (i = 0; i < 20; i++) raw[i] = (unsigned char)(i + 1);
     wfile("sub/sraw", raw, 20);
